@@ -239,6 +239,32 @@ def _check_necessity(g, ctx, vals, kw, tag, extra_kw=None):
             raise Violation("c08.necessity", f"[{tag}] omitting required input {p!r} was not rejected with MissingInputError: {out.brief()}", got=out.status)
         if ctx.log or rec.events or rec.shutdowns:
             raise Violation("c08.rejected_with_side_effects", f"[{tag}] rejection of missing {p!r} came after {len(ctx.log)} node calls, {len(rec.events)} events, {rec.shutdowns} shutdowns")
+    # several cyclic components: each needs the parameters of one of its entry points, whichever entry point is NAMED in the call
+    eps = g.inputs.entrypoints
+    chosen = []
+    for comp_ in sorted(_cyclic_components(g), key=lambda c_: sorted(c_)):
+        sat = [m for m in sorted(comp_) if m in eps and set(eps[m]) <= set(vals)]
+        if sat:
+            chosen.append(sat[0])  # the entry point of that component the supplied values satisfy
+    if len(chosen) >= 2 and not extra_kw:
+        for ep in chosen:
+            others = {q for e2 in chosen if e2 != ep for q in eps[e2]}
+            own = [q for q in eps[ep] if q not in others and q not in g.inputs.required and q in vals]
+            if not own:
+                continue
+            comp = next(c for c in _cyclic_components(g) if ep in c)
+            # withholding this seed must leave NO entry point of that component satisfied
+            v2 = {k: v for k, v in vals.items() if k not in own}
+            if any(set(eps[m]) <= set(v2) for m in comp if m in eps):
+                continue
+            for named in [e2 for e2 in chosen if e2 != ep][:1]:
+                ctx.reset()
+                out, rec = _run(g, v2, recorder=True, max_iterations=15, **{**kw, "entrypoint": named})
+                n += 1
+                if out.status != "raised" or not isinstance(out.error, MissingInputError):
+                    raise Violation("c08.necessity", f"[{tag}, entrypoint={named!r}] the cycle of {ep!r} got no seed ({own} withheld) but the call was not rejected with MissingInputError: {out.brief()}", got=out.status, what="cycle_seed")
+                if ctx.log or rec.events or rec.shutdowns:
+                    raise Violation("c08.rejected_with_side_effects", f"[{tag}] rejection of the missing cycle seed {own} came after {len(ctx.log)} node calls, {len(rec.events)} events")
     return n
 
 
